@@ -463,6 +463,13 @@ func lfStopSystem(sys *actorSystem) {
 	sys.stopCoalescedFailureDrain()
 }
 
+// lfMutexDurable: the package under test is built with the sync shims (variant actor-life1-instr):
+// a goroutine that has to wait for a mutex then parks on a sync.Cond, which a bubble treats as
+// durably blocked. Settle returns with a stopper queued on a held PID.stopLocker, so the
+// stop-lock predictor is switched off and a second stopper may be started while the first one is
+// parked inside PostStop. Detected from the lock's type, independent of build flags.
+var lfMutexDurable = strings.Contains(fmt.Sprintf("%T", &(&PID{}).stopLocker), "vsync")
+
 // lockHeld reports whether pid's stop lock is currently held (only meaningful at quiescence).
 func lfLockHeld(pid *PID) bool {
 	if pid == nil {
@@ -477,6 +484,9 @@ func lfLockHeld(pid *PID) bool {
 
 // anyLockHeld: some tracked actor's stop lock is held.
 func (w *lfWorld) anyLockHeld() bool {
+	if lfMutexDurable {
+		return false // waiting for a held lock cannot wedge the bubble: nothing has to be deferred
+	}
 	for _, p := range w.trackedPIDs() {
 		if lfLockHeld(p) {
 			return true
@@ -523,6 +533,9 @@ func (w *lfWorld) pid(name string) *PID {
 // unconditionally; a child is only shut down (recursively) when it is running or suspended — a child
 // whose stop is already in progress is skipped by freeChildren, so it cannot block the caller.
 func (w *lfWorld) wouldBlock(name string) bool {
+	if lfMutexDurable {
+		return false
+	}
 	pid := w.pid(name)
 	if pid == nil {
 		return false
